@@ -409,3 +409,258 @@ def _store_family_rule(ctx, rep, rule, modname):
                   w.getattr(ctx2, "max_fee_unknown"), True)
         rep.check(w.getattr(ctxobj, "max_fee_unknown") is False, rule, "FeeField store known flag", where,
                   w.getattr(ctxobj, "max_fee_unknown"), False)
+
+
+# ------------------------------------------------------------------------------------------------ addresses (C08)
+
+def _addr_consts(ctx, cls):
+    m = ctx.world.module(cls.mod.name)
+    return m.lookup("ANY_ADDRESS"), m.lookup("NO_ADDRESS")
+
+
+def _den(s, ANY, NO):
+    """denotation of an address-set value: TOP, or a frozenset of addresses"""
+    if not isinstance(s, (set, frozenset)):
+        return ("BAD", repr(s))
+    if ANY in s:
+        return "TOP"
+    return frozenset(x for x in s if x != NO)
+
+
+def _show(d):
+    return d if isinstance(d, (str, tuple)) else sorted(d)
+
+
+ADDR_KEYS = {"RekeyTo": "rekeyto", "CloseRemainderTo": "closeto", "AssetCloseTo": "assetcloseto", "Sender": "sender"}
+LIT = "7777777777777777777777777777777777777777777777777777Y5HFKQ"
+LIT2 = "VCMJKWOY5P5P7SKMZFFOCEROPJCZOTIJMNIYNUCKH7LRO45JMJP6UYBIJA"
+
+
+def rule_addr_lattice(ctx, rep):
+    rule = "T-LATTICE(addr)"
+    rep.rule(rule, "address sets with ANY (top) and NO (empty) markers: union/intersection denote set union/intersection")
+    an = _find_analyses(ctx)
+    rep.require("addr_fields" in an, "address analysis class not found")
+    cls = an["addr_fields"]
+    me = Obj(cls)
+    ANY, NO = _addr_consts(ctx, cls)
+    where = _analysis_where(ctx, cls.mod.name, cls.name, "_union")
+    u = _call(ctx, me, "_universal_set", "RekeyTo")
+    z = _call(ctx, me, "_null_set", "RekeyTo")
+    rep.check(_den(u, ANY, NO) == "TOP", rule, "addr.universe", where, u, "ANY")
+    rep.check(_den(z, ANY, NO) == frozenset(), rule, "addr.null", where, z, "NO")
+    elems = [{ANY}, {NO}, {"a"}, {"b"}, {"a", "b"}, {"b", "c"}, set()]
+    for a, b in itertools.product(elems, elems):
+        da, db = _den(a, ANY, NO), _den(b, ANY, NO)
+        wu = "TOP" if "TOP" in (da, db) else da | db
+        wi = db if da == "TOP" else da if db == "TOP" else da & db
+        gu = _den(_call(ctx, me, "_union", "RekeyTo", set(a), set(b)), ANY, NO)
+        gi = _den(_call(ctx, me, "_intersection", "RekeyTo", set(a), set(b)), ANY, NO)
+        rep.check(gu == wu, rule, "addr._union", where, {"a": sorted(a), "b": sorted(b), "got": _show(gu)}, {"want": _show(wu)},
+                  sample={"a": sorted(a), "b": sorted(b), "union": _show(wu)})
+        rep.check(gi == wi, rule, "addr._intersection", where, {"a": sorted(a), "b": sorted(b), "got": _show(gi)}, {"want": _show(wi)})
+
+
+def rule_addr_tables(ctx, rep):
+    rule = "T-CMP(addr)"
+    rep.rule(rule, "address fields: == gives (asserted, ANY), != gives (ANY, asserted), both operand orders; ZeroAddress -> no address, "
+                   "literal -> that literal, CreatorAddress -> one named address; other operators / unrelated values give (ANY, ANY)")
+    an = _find_analyses(ctx)
+    cls = an["addr_fields"]
+    me = Obj(cls)
+    ANY, NO = _addr_consts(ctx, cls)
+    where = _analysis_where(ctx, cls.mod.name, cls.name)
+    zero_lit = ctx.spec("avm_fields.json")["constants"]["ZERO_ADDRESS"]
+    base_keys = list(ctx.world.getattr(me, "BASE_KEYS"))
+    rep.check(sorted(base_keys) == sorted(ADDR_KEYS), rule, "address keys", where, base_keys, sorted(ADDR_KEYS),
+              why="the four governed address fields must be analysed")
+    comparands = {
+        "zero": ("global ZeroAddress", lambda d: d == frozenset()),
+        "literal": (f"addr {LIT}", lambda d: d == frozenset({LIT})),
+        "zero-literal": (f"addr {zero_lit}", lambda d: d in (frozenset(), frozenset({zero_lit}))),
+        "creator": ("global CreatorAddress", lambda d: d != "TOP" and len(d) == 1 and LIT not in d),
+    }
+    cells = 0
+    for key in ADDR_KEYS:
+        line = f"txn {key}"
+        for (cname, (cline, accept)), pos in itertools.product(comparands.items(), "LR"):
+            for opsym in ("==", "!="):
+                got = _call(ctx, me, "_get_asserted_single", key, cond(ctx, line, opsym, pos, cline))
+                cells += 1
+                if not (isinstance(got, tuple) and len(got) == 2):
+                    rep.violation(rule, f"{key} {opsym} {cname} ({pos})", where, got, "pair of address sets")
+                    continue
+                dt, df = _den(got[0], ANY, NO), _den(got[1], ANY, NO)
+                asserted, other = (dt, df) if opsym == "==" else (df, dt)
+                rep.check(asserted != "TOP" and not isinstance(asserted, tuple) and accept(asserted) and other == "TOP", rule,
+                          f"{key} {opsym} {cname} ({pos})", where, {"true": _show(dt), "false": _show(df)},
+                          f"{'true' if opsym == '==' else 'false'} side = the compared address, other side = ANY",
+                          sample={"cond": f"{line} {opsym} {cline}" if pos == "L" else f"{cline} {opsym} {line}", "true": _show(dt), "false": _show(df)})
+            for opsym in ("<", ">=", "+"):
+                got = _call(ctx, me, "_get_asserted_single", key, cond(ctx, line, opsym, pos, cline))
+                ok = isinstance(got, tuple) and _den(got[0], ANY, NO) == "TOP" and _den(got[1], ANY, NO) == "TOP"
+                rep.check(ok, rule, f"{key} {opsym} (not an equality)", where, got, "(ANY, ANY)")
+        # comparisons not involving this key
+        for seq in ([f"txn {'Sender' if key != 'Sender' else 'RekeyTo'}", "global ZeroAddress", "=="], ["txn Amount", "int 0", "=="],
+                    [f"gtxn 1 {key}", "global ZeroAddress", "=="], ["global ZeroAddress", "global CreatorAddress", "=="]):
+            v, _, _ = _builder(ctx).operand(seq)
+            got = _call(ctx, me, "_get_asserted_single", key, v)
+            ok = isinstance(got, tuple) and _den(got[0], ANY, NO) == "TOP" and _den(got[1], ANY, NO) == "TOP"
+            rep.check(ok, rule, f"{key} unaffected by {seq[0].split()[0]} {seq[0].split()[-1] if seq[0].split()[-1] != key else 'same-field-other-txn'}",
+                      where, got, "(ANY, ANY)", why="a comparison of another field / another transaction must not constrain this key")
+        # run-time comparands (documented heuristic): must not raise and must keep the other side ANY
+        for oline, pos in itertools.product(("load 0", "txn Sender" if key != "Sender" else "txn Receiver", None), "LR"):
+            if oline is None and pos == "L":
+                continue
+            got = _call(ctx, me, "_get_asserted_single", key, cond(ctx, line, "==", pos, oline))
+            ok = isinstance(got, tuple) and len(got) == 2 and got[0] != "RAISES" and _den(got[1], ANY, NO) == "TOP"
+            rep.check(ok, rule, f"{key} == run-time value", where, got, "(heuristic set, ANY)")
+    rep.count("address comparison cells", cells)
+    rep.require(cells >= 4 * 4 * 2 * 2, "address table smaller than the full product")
+
+
+def rule_addr_store(ctx, rep):
+    rule = "T-STORE(addr)"
+    rep.rule(rule, "_set_addr_values: any_addr <=> ANY in s, no_addr <=> NO in s, possible_addr = the rest; key -> attribute pairing for "
+                   "self / at-index / absolute / relative contexts")
+    an = _find_analyses(ctx)
+    cls = an["addr_fields"]
+    w = ctx.world
+    ANY, NO = _addr_consts(ctx, cls)
+    where = _analysis_where(ctx, cls.mod.name, cls.name, "_set_addr_values")
+    AFV = w.cls("tealer.teal.context.block_transaction_context", "AddrFieldValue")
+    for s in ({ANY}, {NO}, {"a"}, {"b", "a"}, set()):
+        o = w.new(AFV)
+        r = _call(ctx, Obj(cls), "_set_addr_values", o, set(s))
+        got = (w.getattr(o, "any_addr"), w.getattr(o, "no_addr"), list(w.getattr(o, "possible_addr")))
+        want = (ANY in s, NO in s, sorted(x for x in s if x not in (ANY, NO)))
+        rep.check(got[0] == want[0] and got[1] == want[1] and sorted(got[2]) == want[2], rule, f"_set_addr_values {sorted(s)}", where, got, want)
+    d = w.new(AFV)
+    rep.check((w.getattr(d, "any_addr"), w.getattr(d, "no_addr"), w.getattr(d, "possible_addr")) == (True, False, []), rule,
+              "AddrFieldValue defaults", ctx.path("tealer.teal.context.block_transaction_context"), repr(d), "any address")
+    _store_family_rule(ctx, rep, rule, "addr_fields")
+
+
+# ------------------------------------------------------------------------------------------------ transaction kinds (C07)
+
+KINDS = {   # the four detector-relevant kinds: field valuation of the governed transaction
+    "Pay": {"TypeEnum": 1, "OnCompletion": 0, "ApplicationID": "zero"},
+    "Axfer": {"TypeEnum": 4, "OnCompletion": 0, "ApplicationID": "zero"},
+    "ApplUpdateApplication": {"TypeEnum": 6, "OnCompletion": 4, "ApplicationID": "nonzero"},
+    "ApplDeleteApplication": {"TypeEnum": 6, "OnCompletion": 5, "ApplicationID": "nonzero"},
+}
+
+
+def _labels(s):
+    return {x.name if isinstance(x, EnumMember) else str(x) for x in s}
+
+
+def rule_kind_tables(ctx, rep):
+    rule = "T-KIND"
+    rep.rule(rule, "transaction-kind table: every cell (field in TypeEnum/OnCompletion/ApplicationID) x (bare, !, ==c, !=c, both orders) "
+                   "x (true,false) retains each of Pay/Axfer/ApplUpdateApplication/ApplDeleteApplication that can make the comparison come out that way")
+    an = _find_analyses(ctx)
+    rep.require("txn_types" in an, "transaction-type analysis class not found")
+    cls = an["txn_types"]
+    me = Obj(cls)
+    w = ctx.world
+    where = _analysis_where(ctx, cls.mod.name, cls.name)
+    fs = ctx.spec("avm_fields.json")
+    key = list(w.getattr(me, "BASE_KEYS"))[0]
+    U = _call(ctx, me, "_universal_set", key)
+    rep.check(isinstance(U, set) and set(KINDS) <= _labels(U), rule, "universe contains the four consumed kinds", where, sorted(_labels(U)) if isinstance(U, set) else U, sorted(KINDS))
+    names = {"TypeEnum": fs["type_enum"], "OnCompletion": fs["on_completion"]}
+    cells = 0
+
+    def possible(kind, field, opsym, cval, outcome):
+        """can a transaction of this kind make `field op c` evaluate to `outcome`?"""
+        val = KINDS[kind][field]
+        if field == "ApplicationID":
+            if cval is None:         # truthiness
+                res = {val == "nonzero"}
+            elif cval == 0:
+                res = {(val == "zero")}
+            else:                     # equal to some specific non-zero id: possible either way for non-zero ids
+                res = {True, False} if val == "nonzero" else {False}
+        else:
+            res = {val == cval}
+        if opsym == "!=":
+            res = {not r for r in res}
+        return outcome in res
+
+    def judge(field, opsym, cname, cval, got, raw):
+        nonlocal cells
+        if not (isinstance(got, tuple) and len(got) == 2 and isinstance(got[0], set)):
+            rep.violation(rule, f"({field} {opsym} {cname}) evaluates", where, got, "pair of label sets",
+                          why="the table raises or returns no sets for a constant a valid program can contain")
+            return
+        for outcome, s in ((True, _labels(got[0])), (False, _labels(got[1]))):
+            for kind in KINDS:
+                cells += 1
+                need = possible(kind, field, opsym, cval, outcome)
+                if need:
+                    rep.check(kind in s, rule, f"({field} {opsym} {cname}).{str(outcome).lower()} keeps {kind}", where,
+                              sorted(s), f"contains {kind}",
+                              why=f"a {kind} transaction can make `{raw}` {'true' if outcome else 'false'} but the cell drops its label",
+                              sample={"cell": f"({field} {opsym} {cname}).{outcome}", "labels": sorted(s)})
+
+    for field in ("TypeEnum", "OnCompletion"):
+        line = f"txn {field}"
+        consts = [(n, v, f"int {n}") for n, v in names[field].items() if not (field == "TypeEnum" and n == "unknown")]
+        consts += [(n, v, f"int {v}") for n, v in names[field].items()]
+        consts += [(str(v), v, f"int {v}") for v in (7, 255)]
+        for (cname, cval, cline), opsym, pos in itertools.product(consts, ("==", "!="), "LR"):
+            v = cond(ctx, line, opsym, pos, cline)
+            got = _call(ctx, me, "_get_asserted_single", key, v)
+            judge(field, opsym, cname, cval, got, f"{line} {opsym} {cline}")
+    # ApplicationID
+    line = "txn ApplicationID"
+    b = _builder(ctx)
+    v, _, _ = b.operand([line])
+    judge("ApplicationID", "bare", "-", None, _call(ctx, me, "_get_asserted_single", key, v), line)
+    v, _, _ = b.operand([line, "!"])
+    got = _call(ctx, me, "_get_asserted_single", key, v)
+    # `!x` is true iff x is zero: outcome polarity flips relative to truthiness
+    if isinstance(got, tuple) and len(got) == 2:
+        judge("ApplicationID", "not", "-", None, (got[1], got[0]), f"{line}; !")
+    else:
+        judge("ApplicationID", "not", "-", None, got, f"{line}; !")
+    for (cname, cval), opsym, pos in itertools.product((("0", 0), ("5", 5)), ("==", "!="), "LR"):
+        got = _call(ctx, me, "_get_asserted_single", key, cond(ctx, line, opsym, pos, f"int {cval}"))
+        judge("ApplicationID", opsym, cname, cval, got, f"{line} {opsym} int {cval}")
+    # unrelated comparisons / unknown operands keep everything
+    for seq in (["txn Amount", "int 1", "=="], ["txn TypeEnum", "load 0", "=="], ["txn TypeEnum", "=="], ["txn TypeEnum", "int pay", "<"],
+                ["gtxn 1 TypeEnum", "int pay", "=="], ["int 1", "int pay", "=="], ["txn Fee", "!"]):
+        v, _, _ = b.operand(seq)
+        got = _call(ctx, me, "_get_asserted_single", key, v)
+        ok = isinstance(got, tuple) and isinstance(got[0], set) and set(KINDS) <= _labels(got[0]) and set(KINDS) <= _labels(got[1])
+        rep.check(ok, rule, f"unrelated `{' '.join(seq)}` keeps all kinds", where, got, "all four kinds on both sides")
+    rep.count("kind cells judged", cells)
+    rep.require(cells >= 400, f"kind table has only {cells} cells")
+
+
+def rule_kind_exact_compared(ctx, rep):
+    """exactness on the compared label (C03.4 for the kind domain)"""
+    rule = "T-KIND(exact)"
+    rep.rule(rule, "OnCompletion/TypeEnum == X: the true side is exactly {X}'s label among the labels of that dimension and the false side excludes it")
+    an = _find_analyses(ctx)
+    cls = an["txn_types"]
+    me = Obj(cls)
+    w = ctx.world
+    where = _analysis_where(ctx, cls.mod.name, cls.name)
+    key = list(w.getattr(me, "BASE_KEYS"))[0]
+    dims = {"OnCompletion": {"UpdateApplication": "ApplUpdateApplication", "DeleteApplication": "ApplDeleteApplication", "NoOp": "ApplNoOp"},
+            "TypeEnum": {"pay": "Pay", "axfer": "Axfer", "appl": "Appl"}}
+    for field, m in dims.items():
+        dim_labels = set(m.values()) | ({"ApplOptIn", "ApplCloseOut", "ApplClearState"} if field == "OnCompletion" else {"KeyReg", "Acfg"})
+        for (cname, label), pos in itertools.product(m.items(), "LR"):
+            for opsym in ("==", "!="):
+                got = _call(ctx, me, "_get_asserted_single", key, cond(ctx, f"txn {field}", opsym, pos, f"int {cname}"))
+                if not (isinstance(got, tuple) and isinstance(got[0], set)):
+                    rep.violation(rule, f"{field} {opsym} {cname}", where, got, "label sets")
+                    continue
+                t, f = _labels(got[0]), _labels(got[1])
+                eq_side, ne_side = (t, f) if opsym == "==" else (f, t)
+                rep.check(eq_side & dim_labels == {label} and label not in ne_side, rule, f"{field} {opsym} {cname} ({pos})", where,
+                          {"equal-side": sorted(eq_side), "other-side": sorted(ne_side)}, f"equal side has exactly {label} of its dimension; other side lacks it",
+                          why="a direct check on the compared value must exclude exactly that value")
